@@ -1,6 +1,7 @@
 package main
 
 import (
+	"encoding/base64"
 	"encoding/json"
 	"fmt"
 	"sort"
@@ -24,6 +25,8 @@ func dimSpecs(codes []int64) []hx.DimSpec {
 			out[i] = hx.DimSpec{Fixed: c}
 		case c == -1:
 			out[i] = hx.DimSpec{Param: fmt.Sprintf("N%d", i)}
+		case c == -2:
+			out[i] = hx.DimSpec{EmptyParam: true}
 		}
 	}
 	return out
@@ -84,13 +87,13 @@ func reluModel(inputs map[string][]int64, inits map[string]*ref.T) []byte {
 
 func checkC13(c *hx.Checker) {
 	thorough := c.Tier == "thorough"
-	maxSigRank, maxSupRank := 3, 4
+	maxSigRank, maxSupRank := 4, 5
 	if thorough {
-		maxSigRank, maxSupRank = 4, 5
+		maxSupRank = 6
 	}
-	c.Rule = fmt.Sprintf("one-input signatures: every rank 1..%d with each dim in {fixed 2, fixed 3, symbolic, unspecified} x supplied tensor of EVERY shape of Box(rank 0..%d, extents {1,2,3}) on an identity-like graph (Relu); "+
+	c.Rule = fmt.Sprintf("one-input signatures: every rank 1..%d with each dim in {fixed 2, fixed 3, symbolic, unspecified (no value), symbolic with an empty name} x supplied tensor of EVERY shape of Box(rank 0..%d, extents {1,2,3}) on an identity-like graph (Relu); "+
 		"introspection (InputNames / InputShapes / InputDimSize) compared with the declaration and with the observed accept/reject behaviour per axis; "+
-		"three-input signatures (fixed, symbolic, mixed) x every subset of supplied names, an extra name, names permuted onto the wrong tensors; inputs shadowed by initializers (supplied / not supplied). "+
+		"call histories: every sequence of 1..3 Runs on one Model over 11 feeds of the three-input signature (good, other dynamic sizes, each input missing / wrong rank / wrong fixed dim), every call judged by the same predicate; three-input signatures (fixed, symbolic, mixed) x every subset of supplied names, an extra name, names permuted onto the wrong tensors; inputs shadowed by initializers (supplied / not supplied). "+
 		"non-trivial = supplied shape differs from a trivially matching one (every reject case and every accept with a dynamic axis)", maxSigRank, maxSupRank)
 	c.Assumptions = []string{"reference predicate: all non-initializer inputs present AND rank equal AND every fixed dim equal", "a supplied name the graph does not declare is outside the statement: only 'no panic' is asserted"}
 	type job struct {
@@ -103,7 +106,9 @@ func checkC13(c *hx.Checker) {
 	supplied := ref.Box(0, maxSupRank, []int{1, 2, 3})
 	var sigs [][]int64
 	for r := 1; r <= maxSigRank; r++ {
-		sigs = append(sigs, seqs([]int64{2, 3, -1, 0}, r, r)...)
+		// 2, 3: fixed; -1: symbolic (named); 0: unspecified (no value); -2: symbolic with an empty name
+		alphabet := []int64{2, 3, -1, 0, -2}
+		sigs = append(sigs, seqs(alphabet, r, r)...)
 	}
 	for _, sig := range sigs {
 		model := reluModel(map[string][]int64{"x": sig}, nil)
@@ -211,6 +216,68 @@ func checkC13(c *hx.Checker) {
 		g.Node = append(g.Node, hx.Node("Relu", []string{"a"}, []string{"y_a"}, nil))
 		g.Output = append(g.Output, hx.ValueInfoNoShape("y_a"))
 		jobs = append(jobs, job{newModelCase(hx.Marshal(hx.Model(g, 13)), map[string]*ref.T{"a": good["a"]}, "outputs", map[string]*ref.T{"y_a": ea}, hx.Num, ""), "init-input/unread-not-supplied", []string{"initializer-input"}, true})
+	}
+	// ---------------- call histories on ONE model: every sequence of up to 3 calls over an alphabet of accepted
+	// and refused feeds of the three-input signature; each call is judged by the same predicate, whatever came before
+	{
+		type callT struct {
+			name string
+			feed map[string]*ref.T
+		}
+		with := func(k string, t *ref.T) map[string]*ref.T {
+			f := map[string]*ref.T{}
+			for n, v := range good {
+				f[n] = v
+			}
+			if t == nil {
+				delete(f, k)
+			} else {
+				f[k] = t
+			}
+			return f
+		}
+		d := func(sh ...int) *ref.T { return ref.Distinct(ref.F32, sh) }
+		calls := []callT{{"good", with("", nil)}, {"dyn-sizes", map[string]*ref.T{"a": good["a"], "b": d(5, 3), "c": d(1, 2, 4)}},
+			{"missing-a", with("a", nil)}, {"missing-b", with("b", nil)}, {"missing-c", with("c", nil)},
+			{"a-rank", with("a", d(2, 3, 1))}, {"a-dim", with("a", d(2, 2))}, {"b-rank", with("b", d(3))}, {"b-dim", with("b", d(1, 2))},
+			{"c-rank", with("c", d(3, 2))}, {"c-dim", with("c", d(3, 3, 2))}}
+		calls[0].feed = map[string]*ref.T{"a": good["a"], "b": good["b"], "c": good["c"]}
+		step := func(cl callT) *modelCase {
+			ok := len(cl.feed) == 3
+			for n, t := range cl.feed {
+				if !accepts(sig3[n], t.Shape) {
+					ok = false
+				}
+			}
+			if !ok {
+				mc := newModelCase(nil, cl.feed, "error", nil, hx.Num, cl.name)
+				return mc
+			}
+			exp := map[string]*ref.T{}
+			for n, t := range cl.feed {
+				e, _ := ref.Unary("Relu", t)
+				exp["y_"+n] = e
+			}
+			return newModelCase(nil, cl.feed, "outputs", exp, hx.Num, cl.name)
+		}
+		maxLen := 3
+		if thorough {
+			maxLen = 4
+		}
+		var seqsIdx [][]int64
+		seqsIdx = seqs(rangeI64(0, len(calls)-1), 1, maxLen)
+		c.AddTraces(int64(len(seqsIdx)))
+		c.ParallelFor(len(seqsIdx), func(i int) {
+			ix := seqsIdx[i]
+			h := &modelHistory{ReplayKind: "model-history", Model: base64.StdEncoding.EncodeToString(m3)}
+			id := "history"
+			for _, k := range ix {
+				h.Steps = append(h.Steps, step(calls[k]))
+				id += "/" + calls[k].name
+			}
+			h.Desc = id
+			c.Case(hx.CaseInfo{ID: id, Tags: []string{"history", fmt.Sprintf("calls=%d", len(ix))}, NonTrivial: len(ix) > 1}, func() *hx.Violation { return h.run() })
+		})
 	}
 	c.ParallelFor(len(jobs), func(i int) {
 		j := jobs[i]
